@@ -84,6 +84,9 @@ func c06R1(p *core.Program, r *core.Report) {
 		}
 		cs := callers[0]
 		f := cs.In
+		if f.Parent == nil {
+			f = unit(p, f) // a predicate or another unexported helper extracted from the dispatch loop is seen in place
+		}
 		info := f.Info()
 		g := graph(f)
 		at := g.PointOf(cs.Call)
@@ -168,29 +171,78 @@ func c06R1(p *core.Program, r *core.Report) {
 			}
 			r.Check(fromTypes && keysOK, rule, f, "every table entry is dispatched exactly once, in sorted order", loop.Pos(), "keys of c.pkg.Types() collected unconditionally, sorted, ranged once", "the dispatch loop does not visit each key of the package's type table exactly once in sorted order")
 		}
-		// enabled(g, tags) with tags from Doc(x.Obj())
+		// enabled(g, tags) with tags from Doc(x.Obj()); the test may be spelled in place or as a predicate of the package
+		// whose body is exactly that (`tags, _ := c.Doc(obj); return IsGeneratorEnabled(g, tags)`), with its parameters
+		// standing for the arguments
+		var enabledTest func(fi *core.Func, scope ast.Node, e ast.Expr, depth int) (gen, obj ast.Expr, ok bool)
+		enabledTest = func(fi *core.Func, scope ast.Node, e ast.Expr, depth int) (ast.Expr, ast.Expr, bool) {
+			ii := fi.Info()
+			e, _ = core.Resolve(ii, fi.Body, e)
+			c, isCall := ast.Unparen(e).(*ast.CallExpr)
+			if !isCall || depth > 2 {
+				return nil, nil, false
+			}
+			if ec := core.AsCall(ii, c, enabled); ec != nil && len(ec.Args) == 2 {
+				tv := core.VarOf(ii, ec.Args[1])
+				if tv == nil {
+					return nil, nil, false
+				}
+				d, ok := core.SingleDef(ii, scope, tv)
+				if !ok {
+					d, ok = core.SingleDef(ii, fi.Body, tv)
+				}
+				if !ok || d.Index != 0 {
+					return nil, nil, false
+				}
+				dc := core.AsCall(ii, d.Rhs, docName, "("+core.G("pkg/gengo.Context")+").Doc")
+				if dc == nil || len(dc.Args) != 1 {
+					return nil, nil, false
+				}
+				return ec.Args[0], dc.Args[0], true
+			}
+			h := p.FuncOfObj(core.CalleeFunc(ii, c))
+			if h == nil || h.Body == nil || h.Decl == nil || h.Pkg != fi.Pkg || h.Decl.Name.IsExported() {
+				return nil, nil, false
+			}
+			rets := ownReturnsOf(h)
+			if len(rets) != 1 || len(rets[0].Results) != 1 {
+				return nil, nil, false
+			}
+			hg, ho, ok := enabledTest(h, h.Body, rets[0].Results[0], depth+1)
+			if !ok {
+				return nil, nil, false
+			}
+			// parameters -> arguments
+			arg := func(pe ast.Expr) ast.Expr {
+				v := core.VarOf(h.Info(), pe)
+				if v == nil || !isParamOf(h, v) {
+					return nil
+				}
+				if k := paramIndex(h, v); k >= 0 && k < len(c.Args) {
+					return c.Args[k]
+				}
+				return nil
+			}
+			ag, ao := arg(hg), arg(ho)
+			if ag == nil || ao == nil {
+				return nil, nil, false
+			}
+			return ag, ao, true
+		}
 		enOK := false
 		for _, fct := range g.FactsAt(at) {
-			ec := core.AsCall(info, fct.Cond, enabled)
-			if ec == nil || !fct.Val || len(ec.Args) != 2 {
+			if !fct.Val || fct.Tag != nil {
 				continue
 			}
-			tv := core.VarOf(info, ec.Args[1])
-			if tv == nil {
+			genE, objE, ok := enabledTest(f, cc, fct.Cond, 0)
+			if !ok {
 				continue
 			}
-			d, ok := core.SingleDef(info, cc, tv)
-			if !ok || d.Index != 0 {
-				continue
-			}
-			dc := core.AsCall(info, d.Rhs, docName, "("+core.G("pkg/gengo.Context")+").Doc")
-			if dc == nil || len(dc.Args) != 1 {
-				continue
-			}
-			if oc, ok := ast.Unparen(dc.Args[0]).(*ast.CallExpr); ok && strings.HasSuffix(core.CalleeName(info, oc), ").Obj") && info.ObjectOf(identOf(recvOf(oc))) == x && x != nil {
+			docArg, _ := core.Resolve(info, f.Body, objE)
+			if oc, ok := ast.Unparen(docArg).(*ast.CallExpr); ok && strings.HasSuffix(core.CalleeName(info, oc), ").Obj") && info.ObjectOf(identOf(recvOf(oc))) == x && x != nil {
 				// same generator as the one invoked
 				if len(cs.Call.Args) >= 2 {
-					gv := core.VarOf(info, ec.Args[0])
+					gv := core.CanonVarOf(info, f.Body, genE)
 					passed, _ := core.Resolve(info, cc, cs.Call.Args[1])
 					if pv := core.VarOf(info, passed); pv == gv {
 						enOK = true
@@ -216,7 +268,7 @@ func c06R1(p *core.Program, r *core.Report) {
 				continue // arms of the type switch
 			}
 			c := ast.Unparen(fct.Cond)
-			if ec := core.AsCall(info, c, enabled); ec != nil {
+			if _, _, isEn := enabledTest(f, cc, c, 0); isEn {
 				continue
 			}
 			if v := core.VarOf(info, c); v != nil && isBasicKind(v.Type(), types.Bool) {
@@ -232,6 +284,14 @@ func c06R1(p *core.Program, r *core.Report) {
 						continue
 					}
 					if fld := core.FieldOf(info, b.X); fld != nil && core.NamedTypeName(fld.Type()) == core.G("pkg/types.Package") {
+						continue
+					}
+				}
+			}
+			// an emptiness test of the table or of its keys: nothing is left out when there is nothing
+			if x, _, k, isCmp := cmpConst(info, c); isCmp && k == 0 {
+				if lc, isCall := ast.Unparen(x).(*ast.CallExpr); isCall && core.CalleeName(info, lc) == "builtin.len" && len(lc.Args) == 1 {
+					if v := core.VarOf(info, lc.Args[0]); v != nil && loop != nil && (v == table || v == core.VarOf(info, loop.X)) {
 						continue
 					}
 				}
@@ -738,17 +798,44 @@ func c06R5(p *core.Program, r *core.Report) {
 		}
 	}
 	after := false
-	if dgCall != nil {
+	if dgCall != nil && core.SameRef(info, recvOf(dgCall), loop.X.(*ast.SelectorExpr).X) {
 		dp := g.PointOf(dgCall)
-		if g.Dominates(dp, cp) && core.SameRef(info, recvOf(dgCall), loop.X.(*ast.SelectorExpr).X) {
-			// and through its nil edge
-			for _, eb := range errBranches(f) {
-				defs, _ := reachingDefs(g, eb.v, cfgx.Point{B: eb.br.B, I: len(eb.br.B.Nodes) - 1})
-				if len(defs) == 1 && defs[0] == dp && g.EdgeDominates(eb.br.B, 1-eb.nonNil, cp) {
-					after = true
+		// every path to the callbacks passes the generation pass - or the edge on which the context has no package
+		// (nothing to generate: the pass would return at once) ...
+		noPkg := func(b *cfgBlock, k int) bool {
+			if len(b.Succs) != 2 || len(b.Nodes) == 0 {
+				return false
+			}
+			e, ok := b.Nodes[len(b.Nodes)-1].(ast.Expr)
+			if !ok {
+				return false
+			}
+			for _, a := range cfgx.Atoms(e, k == 0) {
+				if bb, isBin := ast.Unparen(a.Cond).(*ast.BinaryExpr); isBin && (bb.Op == token.EQL || bb.Op == token.NEQ) {
+					if id, isNil := ast.Unparen(bb.Y).(*ast.Ident); isNil && id.Name == "nil" && (bb.Op == token.EQL) == a.Val {
+						if fld := core.FieldOf(info, bb.X); fld != nil && core.NamedTypeName(fld.Type()) == core.G("pkg/types.Package") {
+							return true
+						}
+					}
 				}
 			}
+			return false
 		}
+		_, bypass := g.Reach(g.Entry(), true, cfgx.Query{
+			Target:  func(q cfgx.Point) bool { return q == cp },
+			Cut:     func(q cfgx.Point) bool { return q == dp },
+			CutEdge: noPkg,
+		})
+		// ... and leaves it through the nil edge of its error
+		viaErr := true
+		for _, eb := range errBranches(f) {
+			defs, _ := reachingDefs(g, eb.v, cfgx.Point{B: eb.br.B, I: len(eb.br.B.Nodes) - 1})
+			if len(defs) == 1 && defs[0] == dp {
+				_, leaks := g.Reach(cfgx.Point{B: eb.br.B.Succs[eb.nonNil], I: 0}, true, cfgx.Query{Target: func(q cfgx.Point) bool { return q == cp }})
+				viaErr = leaks
+			}
+		}
+		after = !bypass && !viaErr
 	}
 	r.Check(after, rule, f, "callbacks run after the package's last GenerateType succeeded", call.Pos(), "dominated by doGenerate(...) and the nil edge of its error", "callbacks can run before or without the generation pass having succeeded")
 	// before the emptiness test, the registration and the writes
